@@ -83,6 +83,7 @@ Oracle boundaries (cases the statement leaves open are either removed from the a
 from __future__ import annotations
 
 import collections
+import copy
 import json
 
 import numpy as np
@@ -90,12 +91,14 @@ from numpy import inf
 
 from mc import explore, product
 from mc.core import Tally, pmap
+from mc.explore import Rejected
 
 LEVEL = "model_checking"
 EPS = float(np.finfo(float).eps)
 STEP = 1e-7  # OptimizationProblem's default differentiation_step
 GARBAGE = 777.25
 ROLES = ("f", "g", "o")
+FROZEN_LINEAR = "linear-function-normalized-with-the-bounds-of-preprocessing"
 
 # ---------------------------------------------------------------------------------------------------
 # value alphabets (rotated by VERIF_SEED): floats x -> off + scale * x, integers n -> n + ioff
@@ -144,11 +147,24 @@ DIFF = {"user": "user", "fd": "finite_differences", "cd": "centered_differences"
 DEFAULTS = {k: v[0] for k, v in SWITCH_AXES.items()}
 
 
+# design-space edits (alphabet 0 values, transformed like the bounds): one edited variable per layout; every value keeps
+# the three physical points inside the bounds ("tight" exists where the points leave room)
+BASE_EDITS = {
+    "bounded": {"var": "c", "ub": {"loose": [16.0], "tight": [6.0], "inf": [inf]}, "lb": {"loose": [-8.0], "inf": [-inf]}},
+    "unbounded": {"var": "u", "ub": {"loose": [4.0], "inf": [inf]}, "lb": {"loose": [-4.0], "inf": [-inf]}},  # infinite -> finite
+    "equal": {"var": "e", "ub": {"loose": [4.0], "inf": [inf]}, "lb": {"loose": [0.0], "inf": [-inf]}},  # lb == ub -> lb < ub
+    "mixed": {"var": "c", "ub": {"loose": [16.0], "tight": [6.0], "inf": [inf]}, "lb": {"loose": [-8.0], "inf": [-inf]}},
+    "ints": {"var": "n", "ub": {"loose": [8], "inf": [inf]}, "lb": {"loose": [-4], "inf": [-inf]}},
+    "vec": {"var": "v", "ub": {"loose": [4.0, 7.0], "inf": [inf, 3.0]}, "lb": {"loose": [-2.0, -5.0], "inf": [0.0, -inf]}},
+    "pspace": {"var": "c", "ub": {"loose": [16.5], "tight": [6.5], "inf": [inf]}, "lb": {"loose": [-7.5], "inf": [-inf]}},
+}
+
+
 def _layout(name):
-    """The layout in the current alphabet: flat arrays lb, ub, integer mask, points (physical)."""
+    """The layout in the current alphabet: flat arrays lb, ub, integer mask, points, bound edits."""
     base, al = BASE_LAYOUTS[name], ALPHA
     off, scale, ioff = al["off"], al["scale"], al["ioff"]
-    variables, lb, ub, ints = [], [], [], []
+    variables, lb, ub, ints, index = [], [], [], [], {}
     for vname, size, tp, l, u in base["vars"]:
         if tp == "integer":
             l2, u2 = [v + ioff for v in l], [v + ioff for v in u]
@@ -159,6 +175,7 @@ def _layout(name):
                     l2 = [-inf] * size
                 if al["open"] in ("both", "upper"):
                     u2 = [inf] * size
+        index[vname] = (len(lb), len(lb) + size, tp)
         variables.append((vname, size, tp, l2, u2))
         lb += l2
         ub += u2
@@ -174,6 +191,31 @@ def _layout(name):
     out["normed"] = np.isfinite(out["lb"]) & np.isfinite(out["ub"]) & ~ints
     out["span"] = np.where(out["normed"], out["ub"] - out["lb"], 1.0)  # the scale s_j (0 where lb == ub)
     out["lbn"] = np.where(out["normed"], out["lb"], 0.0)
+
+    # the same points in the normalized coordinates of the INITIAL bounds (exact: power-of-two spans); these numbers
+    # are what a caller working in normalized coordinates keeps handing over after the bounds have been edited
+    def to_norm(x, i):
+        p = x.copy()
+        for j in np.nonzero(out["normed"])[0]:
+            s = out["span"][j]
+            if s == 0.0:
+                p[j] = out["inert3"] if (i == 3 and out["inert3"] is not None) else 0.0
+            else:
+                p[j] = (x[j] - out["lb"][j]) / s
+        return p
+
+    out["npoints"] = [to_norm(p, i + 1) for i, p in enumerate(out["points"])]
+    out["np3_round"] = to_norm(out["p3_round"], 3) if out["p3_round"] is not None else None
+
+    ed = BASE_EDITS[name]
+    a, b, tp = index[ed["var"]]
+    edits = {"var": ed["var"], "slice": (a, b)}
+    for side in ("ub", "lb"):
+        vals = {"base": (out[side][a:b]).copy()}
+        for nm, v in ed[side].items():
+            vals[nm] = np.array([x if np.isinf(x) else ((x + ioff) if tp == "integer" else (off + scale * x)) for x in v], dtype=float)
+        edits[side] = vals
+    out["edits"] = edits
     return out
 
 
@@ -266,6 +308,11 @@ def _light_counters():
         pf.Value = _PlainValue
 
 
+def _preprocess_kwargs(sw):
+    return {"is_function_input_normalized": sw["norm"], "use_database": sw["db"], "round_ints": sw["round"],
+            "store_jacobian": sw["store_jac"], "support_sparse_jacobian": sw["sparse"]}
+
+
 class World:
     """The real pre-processed problem + the reference model + the harness bookkeeping."""
 
@@ -276,7 +323,7 @@ class World:
         from scipy.sparse import csr_array
 
         _light_counters()
-        self.lay, self.sw = layout, sw
+        self.lay, self.sw = layout, dict(sw)
         if layout["cls"] == "ParameterSpace":
             from gemseo.algos.parameter_space import ParameterSpace
 
@@ -323,160 +370,160 @@ class World:
         problem.objective = make(self.fns["f"])
         problem.add_constraint(make(self.fns["g"]), constraint_type="ineq")
         problem.add_observable(make(self.fns["o"]))
-        problem.preprocess_functions(
-            is_function_input_normalized=sw["norm"], use_database=sw["db"], round_ints=sw["round"],
-            store_jacobian=sw["store_jac"], support_sparse_jacobian=sw["sparse"],
-        )
+        problem.preprocess_functions(**_preprocess_kwargs(sw))
         self.problem = problem
-        self.funcs = {"f": problem.objective, "g": problem.constraints[0], "o": problem.observables[0]}
+        self.refresh_functions()
         self.buf = np.full(len(layout["lb"]), GARBAGE)
         self.model = collections.OrderedDict()  # key bytes -> {"x": array, "names": {name: {"first":..., ...}}}
+        self.lb, self.ub = layout["lb"].copy(), layout["ub"].copy()  # the model's view of the current bounds
+        self.pre_lb, self.pre_ub = self.lb.copy(), self.ub.copy()  # the bounds when the functions were pre-processed
+        self.n_edits = 0
+        self.n_resets = 0
+        self.frame = None  # set by the Spec
         self.problems = []
         self.broken = False
         self.restores = 0
+        self.ds_touched = False
         self._snap = None
 
-    # -- snapshot / restore: the state of a World is the database, the model and the lazily computed normalization data
+    def refresh_functions(self):
+        p = self.problem
+        self.funcs = {"f": p.objective, "g": p.constraints[0], "o": p.observables[0]}
+
+    # -- snapshot / restore: database, model, design space (bounds + normalization caches), pre-processing ------------
     def snapshot(self):
-        data = self.problem.database._Database__data
-        self._snap = (
-            [(k, dict(v)) for k, v in data.items()],
-            [(kb, {"x": e["x"], "names": dict(e["names"])}) for kb, e in self.model.items()],
-            len(self.calls),
-            self.ds.__dict__["_DesignSpace__norm_data_is_computed"],
-            self.broken,
-        )
+        p = self.problem
+        data = p.database._Database__data
+        self._snap = {
+            "db": [(k, dict(v)) for k, v in data.items()],
+            "model": [(kb, {"x": e["x"], "names": dict(e["names"])}) for kb, e in self.model.items()],
+            "ncalls": len(self.calls),
+            "ds": copy.deepcopy(self.ds.__dict__),
+            "ds_live": dict(self.ds.__dict__),  # the attribute bindings of the live space (shallow)
+            "flag": self.ds.__dict__["_DesignSpace__norm_data_is_computed"],
+            "broken": self.broken,
+            "sw": dict(self.sw), "lb": self.lb.copy(), "ub": self.ub.copy(), "frame": self.frame,
+            "pre_lb": self.pre_lb.copy(), "pre_ub": self.pre_ub.copy(),
+            "n_edits": self.n_edits, "n_resets": self.n_resets,
+            "objective": p._objective, "constraints": list(p.constraints._functions), "observables": list(p.observables._functions),
+            "new_iter": list(p.new_iter_observables._functions), "preprocessed": p._functions_are_preprocessed,
+            "counter": p.evaluation_counter.current, "eval_obs_jac": p.new_iter_observables.evaluate_jacobian,
+        }
+        self.ds_touched = False
 
     def restore(self):
-        items, model, ncalls, flag, broken = self._snap
-        data = self.problem.database._Database__data
+        s = self._snap
+        p = self.problem
+        data = p.database._Database__data
         data.clear()
-        for k, v in items:
+        for k, v in s["db"]:
             data[k] = dict(v)
-        self.model = collections.OrderedDict((kb, {"x": e["x"], "names": dict(e["names"])}) for kb, e in model)
-        del self.calls[ncalls:]
-        self.ds.__dict__["_DesignSpace__norm_data_is_computed"] = flag
-        self.broken = broken
+        self.model = collections.OrderedDict((kb, {"x": e["x"], "names": dict(e["names"])}) for kb, e in s["model"])
+        del self.calls[s["ncalls"]:]
+        d = self.ds.__dict__
+        if self.ds_touched:
+            # edits and resets modify objects of the space in place (variables, current value): deep restore
+            d.clear()
+            d.update(copy.deepcopy(s["ds"]))
+            s["ds_live"] = dict(d)
+            self.ds_touched = False
+        elif not s["flag"]:
+            # an evaluation fills the normalization caches when they are invalid; it rebinds attributes and leaves the
+            # objects they were bound to untouched: put the bindings back
+            d.clear()
+            d.update(s["ds_live"])
+        if self.n_resets != s["n_resets"]:
+            p._objective = s["objective"]
+            p.constraints._functions[:] = s["constraints"]
+            p.observables._functions[:] = s["observables"]
+            p.new_iter_observables._functions[:] = s["new_iter"]
+            p._functions_are_preprocessed = s["preprocessed"]
+            p.new_iter_observables.evaluate_jacobian = s["eval_obs_jac"]
+            self.refresh_functions()
+        p.evaluation_counter.current = s["counter"]
+        self.sw, self.lb, self.ub, self.frame = dict(s["sw"]), s["lb"].copy(), s["ub"].copy(), s["frame"]
+        self.pre_lb, self.pre_ub = s["pre_lb"].copy(), s["pre_ub"].copy()
+        self.n_edits, self.n_resets = s["n_edits"], s["n_resets"]
+        self.broken = s["broken"]
         self.problems = []
         self.buf[:] = GARBAGE
         self.restores += 1
 
 
-class Spec:
-    def __init__(self, layout_name, kind, sw, ops, alphabet=0):
-        global ALPHA
-        ALPHA = ALPHABETS[alphabet]
-        self.alphabet = alphabet
-        self.layout_name, self.kind, self.sw = layout_name, kind, dict(sw)
-        self.lay = _layout(layout_name)
-        self.ops = ops
-        lay = self.lay
-        self.has_int = bool(lay["ints"].any())
-        self.approx = sw["diff"] != "user"
-        self.nondefault = {k: v for k, v in self.sw.items() if v != DEFAULTS[k]}
-        # scale of the coordinates the functions work in / zero columns of the stored Jacobian
-        self.s_fun = lay["span"] if sw["norm"] else np.ones_like(lay["span"])
-        self.s_one = np.ones_like(lay["span"])
-        self.equal = lay["normed"] & (lay["ub"] == lay["lb"])
+class Frame:
+    """The reference model's constants for one (current bounds, normalized?, rounding?) - everything is recomputed
+    from the CURRENT bounds: normalizable components, scaling D, physical images of the caller's points."""
+
+    def __init__(self, spec, lb, ub, norm, rnd):
+        lay = spec.lay
+        self.spec, self.lay = spec, lay
+        self.lb, self.ub, self.norm, self.rnd = lb, ub, norm, rnd
+        ints = lay["ints"]
+        self.normed = np.isfinite(lb) & np.isfinite(ub) & ~ints
+        with np.errstate(invalid="ignore"):
+            self.span = np.where(self.normed, ub - lb, 1.0)  # the scale s_j (0 where lb == ub)
+        self.inv = 1.0 / np.where(self.span == 0.0, 1.0, self.span)
+        self.lbn = np.where(self.normed, lb, 0.0)
+        self.one = np.ones_like(self.span)
+        self.s_fun = self.span if norm else self.one
+        self.equal = self.normed & (ub == lb)
+        self.equal_key = self.equal.tobytes() if norm else b""
         # integer columns where an approximated derivative may legitimately be 0 (boundary iv)
-        rounding_in_path = self.has_int and (sw["round"] or sw["norm"])
-        self.free = lay["ints"] & (self.approx and rounding_in_path)
-        self.fns = {"f": Fn(kind, "f"), "g": Fn(COMPANION[kind], "g"), "o": Fn("quad", "o")}
-        self._points = {}
-        self._expect = {}
-        self.fast = True  # explore siblings on one World restored from a snapshot (confirmed on a fresh World)
-        self.cross_check_len = 2  # histories of < this many operations are always re-executed from scratch
+        self.free = ints & bool(spec.approx and spec.has_int and (rnd or norm))
+        self.key = (lb.tobytes(), ub.tobytes(), norm, rnd)
+        self._points, self._expect = {}, {}
 
-    # -- explorer interface --------------------------------------------------------------------------
-    def starts(self):
-        return [["start", self.layout_name, self.kind, self.sw, self.alphabet]]
-
-    def build(self, hist):
-        w = World(self.lay, self.kind, self.sw, self.fns)
-        for op in hist[1:]:
-            self._apply(w, op, check=False)
-        w.snapshot()
-        return w
-
-    def clone(self, w):
-        """The same World, put back into the state it had when it was built (see ``check`` for the safety net)."""
-        w.restore()
-        return w
-
-    def enabled(self, w, hist):
-        return [] if w.broken else [list(op) for op in self.ops]
-
-    def apply(self, w, op):
-        return self._apply(w, op, check=True)
-
-    def nontrivial(self, hist):
-        pts = [op[2] if op[0] != "ef" else op[1] for op in hist[1:]]
-        return len(pts) != len(set(pts)) or any(op[0] == "ef" and op[3] == "both" for op in hist[1:])
-
-    def canon(self, w):
-        items = []
-        for k, vals in w.problem.database.items():
-            a = k.wrapped_array
-            row = []
-            for n, v in vals.items():
-                v = _dense(v)
-                row.append((n, v.dtype.str, v.shape, v.tobytes()))
-            row.sort()
-            items.append(((a.dtype.str, a.tobytes()), tuple(row)))
-        return (tuple(items), w.problem.evaluation_counter.current, w.ds.__dict__.get("_DesignSpace__norm_data_is_computed"), w.broken)
-
-    # -- coordinates ---------------------------------------------------------------------------------
-    def physical_point(self, i):
-        lay = self.lay
-        if i == 3 and lay["p3_round"] is not None and self.sw["round"]:
-            return lay["p3_round"].copy()
-        return lay["points"][i - 1].copy()
-
-    def caller_point(self, i, normalized):
-        """p_i in normalized or physical coordinates (the harness' own affine formulas)."""
-        lay = self.lay
-        x = self.physical_point(i)
-        if not normalized:
-            return x
-        p = x.copy()
-        for j in np.nonzero(lay["normed"])[0]:
-            s = lay["span"][j]
-            if s == 0.0:
-                p[j] = lay["inert3"] if (i == 3 and lay["inert3"] is not None) else 0.0
-            else:
-                p[j] = (x[j] - lay["lb"][j]) / s
-        return p
-
-    def to_physical(self, p):
-        lay = self.lay
+    def affine(self, p):
         x = p.copy()
-        nz = lay["normed"]
-        x[nz] = p[nz] * lay["span"][nz] + lay["lb"][nz]
+        nz = self.normed
+        x[nz] = p[nz] * self.span[nz] + self.lb[nz]
         return x
+
+    def to_normalized(self, x):  # DesignSpace.normalize_vect written out: (x - lb) * (1 / span)
+        p = x.copy()
+        nz = self.normed
+        p[nz] = (x[nz] - self.lb[nz]) * self.inv[nz]
+        return p
 
     def round_ints(self, x):
         x = x.copy()
-        x[self.lay["ints"]] = np.round(x[self.lay["ints"]])
+        m = self.lay["ints"]
+        x[m] = np.round(x[m])
         return x
 
+    def caller_point(self, i, coords_norm):
+        lay = self.lay
+        if i == 3 and lay["p3_round"] is not None and self.rnd:
+            return (lay["np3_round"] if coords_norm else lay["p3_round"]).copy()
+        return (lay["npoints"] if coords_norm else lay["points"])[i - 1].copy()
+
     def point(self, i, coords_norm):
-        """(p as handed over, expected physical point x, admissible database keys, p in the functions' coordinates)."""
+        """p as handed over, expected physical point x, admissible keys, p in the functions' coordinates, inside bounds?"""
         k = (i, coords_norm)
         if k not in self._points:
             p = self.caller_point(i, coords_norm)
-            x_unrounded = self.to_physical(p) if coords_norm else p.copy()
+            if coords_norm:
+                x_unrounded = member = self.affine(p)
+                p_fun = p if self.norm else x_unrounded
+            elif self.norm:  # a physical point handed to normalized functions: normalize_vect, then unnormalize_vect
+                member = p
+                p_fun = self.to_normalized(p)
+                x_unrounded = self.affine(p_fun)
+            else:
+                x_unrounded = member = p_fun = p.copy()
             x = self.round_ints(x_unrounded)
             cands = [x] if np.array_equal(x, x_unrounded) else [x, x_unrounded]
-            self._points[k] = (p, x, cands, self.caller_point(i, self.sw["norm"]))
+            m = self.round_ints(member) if coords_norm else member  # what evaluate_functions checks against the bounds
+            inside = bool(np.all(m >= self.lb - 1e-9 * (1 + abs(m))) and np.all(m <= self.ub + 1e-9 * (1 + abs(m))))
+            self._points[k] = (p, x, cands, p_fun, inside)
         return self._points[k]
 
-    # -- expectations --------------------------------------------------------------------------------
     def _jac_tol(self, fn, x, p_fun, scale):
         """Entry-wise tolerance of a Jacobian w.r.t. coordinates of scale ``scale`` (see the module docstring)."""
-        xa = abs(x) + 2 * abs(self.lay["lbn"])
+        xa = abs(x) + 2 * abs(self.lbn)
         jm = fn.jmag(xa)
         tol = 32 * EPS * jm * np.maximum(scale, 0.0)
-        if self.approx:
+        if self.spec.approx:
             s = self.s_fun  # the approximation is made in the coordinates of the functions ...
             t = 0.5 * STEP * fn.hdiag() * s**2 * 1.01 + (64 * EPS * fn.mag(xa) / STEP)[:, None] + 8 * EPS * (abs(p_fun) + 1) / STEP * jm * s
             ratio = np.where(s > 0, scale / np.where(s > 0, s, 1.0), 1.0)  # ... and rescaled to ``scale``
@@ -486,24 +533,24 @@ class Spec:
     def expect(self, role, what, i, coords_norm, is_ef):
         k = (role, what, i, coords_norm, is_ef)
         if k not in self._expect:
-            fn = self.fns[role]
-            p, x, cands, p_fun = self.point(i, coords_norm)
+            fn = self.spec.fns[role]
+            p, x, cands, p_fun, _ = self.point(i, coords_norm)
             if what == "val":
-                e = {"exp": fn.value(x), "tol": 32 * EPS * fn.mag(abs(x) + 2 * abs(self.lay["lbn"]))}
+                e = {"exp": fn.value(x), "tol": 32 * EPS * fn.mag(abs(x) + 2 * abs(self.lbn))}
             else:
                 jx = fn.jac(x)
                 readings = [self.s_fun]
-                if is_ef and coords_norm != self.sw["norm"]:  # boundary (iii)
-                    readings.append(self.lay["span"] if coords_norm else self.s_one)
+                if is_ef and coords_norm != self.norm:  # boundary (iii)
+                    readings.append(self.span if coords_norm else self.one)
                 phys = jx.copy()
-                if self.sw["norm"]:
+                if self.norm:
                     phys[:, self.equal] = 0.0
                 e = {"readings": [(jx * s, self._jac_tol(fn, x, p_fun, s), s) for s in readings],
-                     "phys": phys, "phys_tol": self._jac_tol(fn, x, p_fun, self.s_one)}
+                     "phys": phys, "phys_tol": self._jac_tol(fn, x, p_fun, self.one)}
             self._expect[k] = e
         return self._expect[k]
 
-    def _jac_matches(self, got, expected, tol):
+    def jac_matches(self, got, expected, tol):
         """Entry-wise comparison; on the free (integer, approximated, rounded) columns 0 is accepted too."""
         got = _dense2(got)
         if got.shape != expected.shape:
@@ -517,12 +564,123 @@ class Spec:
             ok = ok | (self.free[None, :] & (abs(got) <= tol))
         return bool(ok.all())
 
+
+class Spec:
+    def __init__(self, layout_name, kind, sw, ops, alphabet=0, max_edits=1, max_resets=1, depth=None, edit_after_evaluation=False):
+        global ALPHA
+        ALPHA = ALPHABETS[alphabet]
+        self.alphabet = alphabet
+        self.layout_name, self.kind, self.sw = layout_name, kind, dict(sw)
+        self.lay = _layout(layout_name)
+        self.ops = ops
+        self.max_edits, self.max_resets, self.depth = max_edits, max_resets, depth
+        self.edit_after_evaluation = edit_after_evaluation  # (core menu) an edit needs an earlier evaluation: filled caches
+        self.has_int = bool(self.lay["ints"].any())
+        self.approx = sw["diff"] != "user"
+        self.nondefault = {k: v for k, v in self.sw.items() if v != DEFAULTS[k]}
+        self.fns = {"f": Fn(kind, "f"), "g": Fn(COMPANION[kind], "g"), "o": Fn("quad", "o")}
+        self._frames = {}
+        self.fast = True  # explore siblings on one World restored from a snapshot (confirmed on a fresh World)
+        self.cross_check_len = 2  # histories of < this many operations are always re-executed from scratch
+
+    def frame(self, lb, ub, sw):
+        k = (lb.tobytes(), ub.tobytes(), sw["norm"], sw["round"])
+        if k not in self._frames:
+            self._frames[k] = Frame(self, lb.copy(), ub.copy(), sw["norm"], sw["round"])
+        return self._frames[k]
+
+    def new_world(self):
+        w = World(self.lay, self.kind, self.sw, self.fns)
+        w.frame = self.frame(w.lb, w.ub, w.sw)
+        return w
+
+    # -- explorer interface --------------------------------------------------------------------------
+    def starts(self):
+        return [["start", self.layout_name, self.kind, self.sw, self.alphabet]]
+
+    def build(self, hist):
+        w = self.new_world()
+        for op in hist[1:]:
+            self._apply(w, op, check=False)
+        w.snapshot()
+        return w
+
+    def clone(self, w):
+        """The same World, put back into the state it had when it was built (see ``check`` for the safety net)."""
+        w.restore()
+        return w
+
+    def enabled(self, w, hist):
+        if w.broken:
+            return []
+        out = []
+        last_level = self.depth is not None and len(hist) >= self.depth  # the operation would be the last of the history
+        prev = hist[-1][0] if len(hist) > 1 else None
+        for op in self.ops:
+            k = op[0]
+            if k in ("ub", "lb", "reset") and last_level:
+                continue  # a pure state change is only observable by a later evaluation
+            if k == "orig" and len(hist) > 2 and prev not in ("ub", "lb", "reset"):
+                continue  # the originals do not depend on the database: 1st/2nd operation, or right after an edit / a reset
+            if k in ("ub", "lb"):
+                if w.n_edits >= self.max_edits or op[1] not in self.lay["edits"][k]:
+                    continue
+                if self.edit_after_evaluation and not any(o[0] in ("ev", "jac", "ef") for o in hist[1:]):
+                    continue
+                a, b = self.lay["edits"]["slice"]
+                cur = (w.ub if k == "ub" else w.lb)[a:b]
+                if np.array_equal(cur, self.lay["edits"][k][op[1]]):
+                    continue
+            elif k == "reset" and w.n_resets >= self.max_resets:
+                continue
+            out.append(list(op))
+        return out
+
+    def apply(self, w, op):
+        return self._apply(w, op, check=True)
+
+    def nontrivial(self, hist):
+        ops = hist[1:]
+        pts = [op[2] if op[0] in ("ev", "jac") else op[1] for op in ops if op[0] in ("ev", "jac", "ef")]
+        if len(pts) != len(set(pts)) or any(op[0] == "ef" and op[3] == "both" for op in ops):
+            return True
+        seen_change = False
+        for op in ops:  # an evaluation after a design-space edit or a reset
+            if op[0] in ("ub", "lb", "reset"):
+                seen_change = True
+            elif seen_change:
+                return True
+        return False
+
+    def canon(self, w):
+        items = []
+        for k, vals in w.problem.database.items():
+            a = k.wrapped_array
+            row = []
+            for n, v in vals.items():
+                v = _dense(v)
+                row.append((n, v.dtype.str, v.shape, v.tobytes()))
+            row.sort()
+            items.append(((a.dtype.str, a.tobytes()), tuple(row)))
+        d = w.ds.__dict__
+        return (tuple(items), w.problem.evaluation_counter.current, d.get("_DesignSpace__norm_data_is_computed"), w.broken,
+                tuple(sorted(w.sw.items())),
+                tuple((n, np.asarray(v.lower_bound, dtype=float).tobytes(), np.asarray(v.upper_bound, dtype=float).tobytes()) for n, v in w.ds._variables.items()),
+                None if d.get("_norm_factor") is None else np.asarray(d["_norm_factor"]).tobytes(),  # the cached ranges
+                w.n_edits, w.n_resets, w.problem._functions_are_preprocessed)
+
     # -- one operation ---------------------------------------------------------------------------------
     def _apply(self, w, op, check):
-        sw = self.sw
         if w.broken:
             return "skipped"
         kind = op[0]
+        if kind in ("ub", "lb"):
+            return self._apply_edit(w, op, check)
+        if kind == "reset":
+            return self._apply_reset(w, op, check)
+        if kind == "orig":
+            return self._apply_orig(w, op, check)
+        sw, fr = w.sw, w.frame
         if kind in ("ev", "jac"):
             role, i = op[1], op[2]
             reqs = [(role, "val" if kind == "ev" else "jac")]
@@ -531,7 +689,7 @@ class Spec:
             _, i, b, mode = op
             reqs = [(r, "val") for r in ROLES if mode in ("val", "both")] + [(r, "jac") for r in ROLES if mode in ("jac", "both")]
             coords_norm = bool(b)
-        p, x, cands, p_fun = self.point(i, coords_norm)
+        p, x, cands, p_fun, inside = fr.point(i, coords_norm)
 
         db = w.problem.database
         before = self._db_names(db) if len(cands) > 1 else None
@@ -552,13 +710,15 @@ class Spec:
                 for r, what in reqs:
                     got[(r, what)] = (outs if what == "val" else jacs)[r]
         except Exception as e:  # a legal call must not raise
+            if kind == "ef" and not inside and isinstance(e, ValueError):
+                raise Rejected("point outside the current bounds") from None  # check_membership: a legitimate refusal
             w.broken = True
             if check:
                 import traceback
 
                 tb = traceback.extract_tb(e.__traceback__)[-1]
                 culprit = reqs[0][0]
-                w.problems.append(("call-raises", w.fns[culprit].kind if kind != "ef" else None,
+                w.problems.append(("call-raises", self.fns[culprit].kind if kind != "ef" else None,
                                    f"{op} raised {type(e).__name__}: {str(e)[:200]} (at {tb.filename.split('/')[-1]}:{tb.lineno})"))
             return f"raised:{type(e).__name__}"
         finally:
@@ -584,33 +744,48 @@ class Spec:
         hits = 0
         entry = w.model.get(kb)
         recorded_before = set(entry["names"]) if entry else ()
+        # known finding: an MDOLinearFunction pre-processed with normalized inputs is replaced by
+        # MDOLinearFunction.normalize(design_space), which freezes the bounds of the time of the pre-processing
+        frozen = None
+        if sw["norm"] and not (sw["round"] and self.has_int) and not (np.array_equal(w.pre_lb, w.lb) and np.array_equal(w.pre_ub, w.ub)):
+            frozen = self.frame(w.pre_lb, w.pre_ub, sw)
         for r, what in reqs:
             fn = self.fns[r]
             name = r if what == "val" else "@" + r
             rec = entry["names"].get(name) if entry else None
             hits += rec is not None
             value = got[(r, what)]
-            e = self.expect(r, what, i, coords_norm, kind == "ef")
+            e = fr.expect(r, what, i, coords_norm, kind == "ef")
+            st = self._frozen_linear(fn, fr, frozen, x, p_fun) if (frozen is not None and fn.linear) else None
             if what == "val":
                 if check:
                     g = np.atleast_1d(_dense(value))
                     exp = e["exp"]
                     ok = g.shape == exp.shape and bool(np.all(abs(g - exp) <= e["tol"])) and not (g.dtype.kind == "c" and np.any(g.imag != 0))
-                    if not ok:
+                    if not ok and st is not None and g.shape == st["val"].shape and np.all(abs(g - st["val"]) <= st["val_tol"]):
+                        w.problems.append((FROZEN_LINEAR, fn.kind, f"{op}: {r}.evaluate returned {_show(value)} = the function at {_show(st['x'])}, the image of the normalized point under the bounds of the pre-processing {_show(w.pre_lb)}..{_show(w.pre_ub)}; under the current bounds {_show(fr.lb)}..{_show(fr.ub)} the physical point is x={_show(x)} (value {_show(exp)}), and the value is recorded under x"))
+                    elif not ok:
                         w.problems.append(("returned-value", fn.kind, f"{op}: {r}.evaluate returned {_show(value)}; the user's function at the physical point x={_show(x)} is {_show(exp)}"))
                     if rec is not None and not (np.shape(value) == np.shape(rec["first"]) and np.array_equal(_dense(value), _dense(rec["first"]))):
                         w.problems.append(("repeat-differs", fn.kind, f"{op}: {name} at x={_show(x)} was recorded as {_show(rec['first'])} and is now returned as {_show(value)}"))
                 new = {"first": value}
             else:
-                if check:
-                    if not any(self._jac_matches(value, ex, tol) for ex, tol, _ in e["readings"]):
+                # boundary (viii): a Jacobian recorded while a component had lb == ub (zero column) and served after an
+                # edit has separated its bounds (or conversely) - the two clauses of the statement conflict; not judged
+                stale_zero = rec is not None and rec["equal_key"] != fr.equal_key
+                if check and not stale_zero:
+                    if not any(fr.jac_matches(value, ex, tol) for ex, tol, _ in e["readings"]):
                         ex, _, s = e["readings"][0]
-                        w.problems.append(("returned-jacobian", fn.kind, f"{op}: Jacobian of {r} returned {_show(value)}; expected J_F(x).D = {_show(ex)} (x={_show(x)}, D=diag{_show(s)})"))
-                    if rec is not None:
+                        gj = _dense2(value)
+                        is_frozen = st is not None and gj.shape == st["jac"].shape and bool(np.all(abs(gj - st["jac"]) <= st["jac_tol"]))
+                        w.problems.append((FROZEN_LINEAR if is_frozen else "returned-jacobian", fn.kind, f"{op}: Jacobian of {r} returned {_show(value)}; expected J_F(x).D = {_show(ex)} (x={_show(x)}, D=diag{_show(s)}, bounds {_show(fr.lb)}..{_show(fr.ub)})"))
+                    if rec is not None and rec["frame"] == fr.key:
                         first, now = _dense2(rec["first"]), _dense2(value)
                         if first.shape != now.shape or not np.all(abs(now - first) <= 8 * EPS * abs(first)):
                             w.problems.append(("repeat-differs", fn.kind, f"{op}: {name} at x={_show(x)} was first returned as {_show(first)} and is now returned as {_show(now)}"))
-                new = {"first": value, "phys": e["phys"], "tol": e["phys_tol"]}
+                new = {"first": value, "phys": e["phys"], "tol": e["phys_tol"], "free": fr.free, "frame": fr.key, "equal_key": fr.equal_key}
+                if st is not None:
+                    new["frozen_phys"], new["frozen_tol"] = st["stored"], st["jac_tol"]
 
             # counters in the user's callables (callable kinds only, boundary vii)
             if check and sw["db"] and not fn.linear and calls:
@@ -637,6 +812,93 @@ class Spec:
                 entry["names"][name] = new
         tag = "hit" if hits == len(reqs) else ("miss" if not hits else "partial")
         return f"{tag}:{'db' if sw['db'] else 'off'}"
+
+    @staticmethod
+    def _frozen_linear(fn, fr, frozen, x, p_fun):
+        """What a linear function normalized with the bounds ``frozen`` returns / records for the normalized point p_fun."""
+        x_st = frozen.affine(p_fun)
+        jac = fn.jac(x) * frozen.s_fun
+        xa = abs(x) + abs(x_st) + 2 * abs(frozen.lbn) + 2 * abs(fr.lbn)
+        # (for approximated derivatives: the bound of the module docstring applied to the frozen function)
+        return {"x": x_st, "val": fn.value(x_st), "val_tol": 32 * EPS * fn.mag(xa), "jac": jac,
+                "jac_tol": (32 * EPS * fn.jmag(xa) * np.maximum(frozen.s_fun, 1.0) + frozen._jac_tol(fn, x_st, p_fun, frozen.s_fun)) * np.maximum(fr.inv, 1.0),
+                "stored": np.where(fr.normed, jac * fr.inv, jac)}
+
+    def _apply_edit(self, w, op, check):
+        """design_space.set_upper_bound / set_lower_bound ALONE on the edited variable; the model follows the new bounds."""
+        side, name = op[0], op[1]
+        ed = self.lay["edits"]
+        value = ed[side][name]
+        a, b = ed["slice"]
+        w.ds_touched = True
+        try:
+            (w.ds.set_upper_bound if side == "ub" else w.ds.set_lower_bound)(ed["var"], value.copy())
+        except Exception as e:
+            w.broken = True
+            if check:
+                w.problems.append(("call-raises", None, f"{op}: set_{'upper' if side == 'ub' else 'lower'}_bound({ed['var']}, {_show(value)}) raised {type(e).__name__}: {str(e)[:200]}"))
+            return f"raised:{type(e).__name__}"
+        (w.ub if side == "ub" else w.lb)[a:b] = value
+        w.frame = self.frame(w.lb, w.ub, w.sw)
+        w.n_edits += 1
+        return name
+
+    def _apply_reset(self, w, op, check):
+        """problem.reset(...) followed by a second preprocess_functions(...) with the same / another switch vector."""
+        variant = op[1]
+        sw2 = dict(w.sw)
+        if variant == "norm":
+            sw2["norm"] = not sw2["norm"]
+        keep_db = variant == "keepdb"
+        w.ds_touched = True
+        w.n_resets += 1
+        try:
+            w.problem.reset(database=not keep_db)
+            w.problem.preprocess_functions(**_preprocess_kwargs(sw2))
+        except Exception as e:
+            w.broken = True
+            if check:
+                w.problems.append(("call-raises", None, f"{op}: reset + preprocess_functions raised {type(e).__name__}: {str(e)[:200]}"))
+            return f"raised:{type(e).__name__}"
+        w.refresh_functions()
+        w.sw = sw2
+        w.pre_lb, w.pre_ub = w.lb.copy(), w.ub.copy()
+        w.frame = self.frame(w.lb, w.ub, sw2)
+        if not keep_db:
+            w.model.clear()
+        return variant
+
+    def _apply_orig(self, w, op, check):
+        """The original functions (get_functions(no_db_no_norm=True)) at a physical point: the user's own functions."""
+        i = op[1]
+        fr = w.frame
+        p = fr.caller_point(i, False)
+        inside = bool(np.all(p >= fr.lb - 1e-9 * (1 + abs(p))) and np.all(p <= fr.ub + 1e-9 * (1 + abs(p))))
+        w.buf[:] = p
+        try:
+            outs, jacs = w.problem.get_functions(no_db_no_norm=True, jacobian_names=())
+            values, jacobians = w.problem.evaluate_functions(w.buf, design_vector_is_normalized=False, output_functions=outs, jacobian_functions=jacs)
+        except Exception as e:
+            if not inside and isinstance(e, ValueError):
+                raise Rejected("point outside the current bounds") from None
+            w.broken = True
+            if check:
+                w.problems.append(("call-raises", None, f"{op}: evaluation of the original functions raised {type(e).__name__}: {str(e)[:200]}"))
+            return f"raised:{type(e).__name__}"
+        finally:
+            w.buf[:] = GARBAGE
+        if check:
+            xa = abs(p)
+            for r in ROLES:
+                fn = self.fns[r]
+                exp, jx = fn.value(p), fn.jac(p)
+                g = np.atleast_1d(_dense(values.get(r))) if r in values else None
+                if g is None or g.shape != exp.shape or not np.all(abs(g - exp) <= 32 * EPS * fn.mag(xa)):
+                    w.problems.append(("original-value", fn.kind, f"{op}: the original function {r} (get_functions(no_db_no_norm=True)) returned {_show(values.get(r)) if r in values else None} at the physical point {_show(p)}; the user's function gives {_show(exp)}"))
+                j = _dense2(jacobians[r]) if r in jacobians else None
+                if j is None or j.shape != jx.shape or not np.all(abs(j - jx) <= 32 * EPS * fn.jmag(xa)):
+                    w.problems.append(("original-jacobian", fn.kind, f"{op}: the original function {r} returned the Jacobian {_show(jacobians.get(r)) if r in jacobians else None} at {_show(p)}; the user's Jacobian is {_show(jx)}"))
+        return "ok"
 
     @staticmethod
     def _same_point_keys(db, x):
@@ -668,14 +930,18 @@ class Spec:
         out = self._check(w, hist)
         if not self.fast or w.restores == 0:
             return out
-        # safety net of the snapshot/restore shortcut: every violation, and every history of < cross_check_len operations,
-        # is re-executed on a World built from scratch by replaying the history
-        if out or len(hist) <= self.cross_check_len:
-            fresh = World(self.lay, self.kind, self.sw, self.fns)
+        # safety net of the snapshot/restore shortcut: every violation, every history of < cross_check_len operations
+        # and every history of <= 2 operations ending with an edit or a reset is re-executed on a World built from
+        # scratch by replaying the history
+        if out or len(hist) <= self.cross_check_len or (len(hist) <= 3 and hist[-1][0] in ("ub", "lb", "reset")):
+            fresh = self.new_world()
             for op in hist[1:-1]:
                 self._apply(fresh, op, check=False)
             if len(hist) > 1:
-                self._apply(fresh, hist[-1], check=True)
+                try:
+                    self._apply(fresh, hist[-1], check=True)
+                except Rejected:
+                    pass
             out2 = self._check(fresh, hist)
             same = sorted(json.dumps(s, sort_keys=True) for s, _ in out) == sorted(json.dumps(s, sort_keys=True) for s, _ in out2) and self.canon(fresh) == self.canon(w)
             if not same:
@@ -692,14 +958,18 @@ class Spec:
         if w.broken:
             return out
         db = w.problem.database
-        for r, fn in w.funcs.items():
-            if bool(fn.expects_normalized_inputs) != bool(self.sw["norm"]):
-                out.append((sig("expects-normalized-flag", self.fns[r].kind), f"expects-normalized-flag: {r}.expects_normalized_inputs={fn.expects_normalized_inputs} with is_function_input_normalized={self.sw['norm']}\n  history={json.dumps(hist)}"))
-        if not self.sw["db"]:
-            if len(db):
-                out.append((sig("db-used-while-off"), f"db-used-while-off: {len(db)} entries with use_database=False\n  history={json.dumps(hist)}"))
-            return out
         tail = f"\n  switches={self.sw}\n  history={json.dumps(hist)}"
+        for r, fn in w.funcs.items():
+            if bool(fn.expects_normalized_inputs) != bool(w.sw["norm"]):
+                out.append((sig("expects-normalized-flag", self.fns[r].kind), f"expects-normalized-flag: {r}.expects_normalized_inputs={fn.expects_normalized_inputs} with is_function_input_normalized={w.sw['norm']}{tail}"))
+        # the design space holds the edited bounds
+        if not (np.array_equal(w.ds.get_lower_bounds(), w.lb) and np.array_equal(w.ds.get_upper_bounds(), w.ub)):
+            out.append((sig("design-space-bounds"), f"design-space-bounds: the design space reports {_show(w.ds.get_lower_bounds())}..{_show(w.ds.get_upper_bounds())} after the edits; set: {_show(w.lb)}..{_show(w.ub)}{tail}"))
+        if not w.sw["db"]:
+            if len(db) and not any(op[0] == "reset" for op in hist[1:]):
+                out.append((sig("db-used-while-off"), f"db-used-while-off: {len(db)} entries with use_database=False{tail}"))
+            if not len(w.model):
+                return out
         keys = list(db)
         karr = [np.asarray(k.wrapped_array) for k in keys]
         model = list(w.model.values())
@@ -713,7 +983,7 @@ class Spec:
                 dup = next(a for a, r in zip(karr, reals) if reals.count(r) > 1)
                 out.append((sig("db-same-point-under-two-dtypes"), f"db-same-point-under-two-dtypes: the physical point {_show(dup)} is recorded under {reals.count(np.asarray(dup.real, dtype=float).tobytes())} keys of dtypes {[a.dtype.name for a in karr if np.array_equal(a, dup)]} (after {hist[-1]}); keys: {[_show(a) for a in karr]}{tail}"))
                 return out
-            out.append((sig("db-keys"), f"db-keys: database keys {[_show(a) for a in karr]}; the physical points requested so far, in order of first record, are {[_show(e['x']) for e in model]} (after {hist[-1]}){tail}"))
+            out.append((sig("db-keys"), f"db-keys: database keys {[_show(a) for a in karr]}; the physical points requested so far, in order of first record, are {[_show(e['x']) for e in model]} (after {hist[-1]}; current bounds {_show(w.lb)}..{_show(w.ub)}){tail}"))
             return out
         for k, e in zip(keys, model):
             vals = db[k]
@@ -727,9 +997,25 @@ class Spec:
                         continue
                     if not (np.shape(v) == np.shape(rec["first"]) and np.array_equal(_dense(v), _dense(rec["first"]))):
                         out.append((sig("db-value", self.fns[name].kind), f"db-value: {name} at x={_show(e['x'])} is stored as {_show(v)} but the call that computed it returned {_show(rec['first'])}{tail}"))
-                elif not self._jac_matches(v, rec["phys"], rec["tol"]):
-                    out.append((sig("db-jacobian", self.fns[name[1:]].kind), f"db-jacobian: {name} at x={_show(e['x'])} is stored as {_show(v)}; the physical-space Jacobian is {_show(rec['phys'])}{tail}"))
+                elif not self._stored_jac_matches(v, rec):
+                    gj = _dense2(v)
+                    is_frozen = "frozen_phys" in rec and gj.shape == rec["frozen_phys"].shape and bool(np.all(abs(gj - rec["frozen_phys"]) <= rec["frozen_tol"]))
+                    out.append((sig(FROZEN_LINEAR if is_frozen else "db-jacobian", self.fns[name[1:]].kind), f"db-jacobian: {name} at x={_show(e['x'])} is stored as {_show(v)}; the physical-space Jacobian is {_show(rec['phys'])}{tail}"))
         return out
+
+    @staticmethod
+    def _stored_jac_matches(v, rec):
+        got = _dense2(v)
+        if got.shape != rec["phys"].shape:
+            return False
+        if got.dtype.kind == "c":
+            if np.any(got.imag != 0):
+                return False
+            got = got.real
+        ok = abs(got - rec["phys"]) <= rec["tol"]
+        if rec["free"].any():
+            ok = ok | (rec["free"][None, :] & (abs(got) <= rec["tol"]))
+        return bool(ok.all())
 
 
 # ---------------------------------------------------------------------------------------------------
@@ -738,34 +1024,42 @@ class Spec:
 SPECIAL = ("equal", "mixed", "ints")  # layouts whose third point is special (inert coordinate / non-integral integer)
 
 
-def _ops(layout, points, ef):
+def _ops(points, ef, orig=(), edits=(), resets=()):
     ops = []
     for i in points:
         ops += [["ev", "f", i], ["jac", "f", i], ["ev", "g", i], ["jac", "g", i]]
-    return ops + [["ef", i, b, m] for i, b, m in ef]
+    ops += [["ef", i, b, m] for i, b, m in ef]
+    ops += [["orig", i] for i in orig]
+    ops += [[side, name] for side, name in edits]  # enabled only where the layout defines the value and it changes the bound
+    ops += [["reset", v] for v in resets]
+    return ops
 
 
 def ops_quick(layout, sw=None):
+    extra = {"orig": (1,), "edits": (("ub", "loose"), ("ub", "inf"), ("lb", "loose")), "resets": ("same", "norm")}
     if layout in SPECIAL:
-        return _ops(layout, (1, 2, 3), [(1, 1, "val"), (1, 0, "both"), (3, 1, "jac"), (3, 0, "val")])
-    return _ops(layout, (1, 2), [(1, 1, "val"), (1, 0, "both"), (2, 1, "jac")])
+        return _ops((1, 2, 3), [(1, 1, "val"), (1, 0, "both"), (3, 1, "jac"), (3, 0, "val")], **extra)
+    return _ops((1, 2), [(1, 1, "val"), (1, 0, "both"), (2, 1, "jac")], **extra)
 
 
 def ops_wide(layout, sw=None):
-    return _ops(layout, (1, 2, 3), [(1, 1, "val"), (1, 0, "both"), (1, 1, "jac"), (2, 0, "val"), (2, 1, "both"), (3, 1, "jac"), (3, 0, "val"), (3, 0, "both")])
+    return _ops((1, 2, 3), [(1, 1, "val"), (1, 0, "both"), (1, 1, "jac"), (2, 0, "val"), (2, 1, "both"), (3, 1, "jac"), (3, 0, "val"), (3, 0, "both")],
+                orig=(1, 3), edits=(("ub", "loose"), ("ub", "tight"), ("ub", "inf"), ("ub", "base"), ("lb", "loose"), ("lb", "inf"), ("lb", "base")),
+                resets=("same", "norm", "keepdb"))
 
 
 def ops_core(layout, sw=None):
     # one evaluate_functions variant, given in the coordinates the functions do NOT work in (conversion path)
     b = 0 if (sw is None or sw["norm"]) else 1
-    return _ops(layout, (1, 3) if layout in SPECIAL else (1, 2), [(1, b, "both")])
+    return _ops((1, 3) if layout in SPECIAL else (1, 2), [(1, b, "both")], orig=(1,), edits=(("ub", "loose"),), resets=("same",))
 
 
 OPSETS = {"quick": ops_quick, "wide": ops_wide, "core": ops_core}
 
 
 def _run_config(case, tally):
-    spec = Spec(case["layout"], case["kind"], case["sw"], OPSETS[case["ops"]](case["layout"], case["sw"]), case["alphabet"])
+    spec = Spec(case["layout"], case["kind"], case["sw"], OPSETS[case["ops"]](case["layout"], case["sw"]), case["alphabet"],
+                max_edits=case["max_edits"], max_resets=1, depth=case["depth"], edit_after_evaluation=case["ops"] == "core")
     t = Tally()
     info = explore.bfs(spec, case["depth"], t, jobs=1)
     tally.merge(t)
@@ -788,13 +1082,13 @@ def _passes(ctx):
     n = len(SWITCH_AXES)
     if ctx.thorough:
         return [
-            {"pass": "A", "depth": 3, "ops": "wide", "k": (0, 2)},
-            {"pass": "A'", "depth": 3, "ops": "quick", "k": (3, n)},
-            {"pass": "B", "depth": 4, "ops": "core", "k": (0, n)},
+            {"pass": "A", "depth": 3, "ops": "wide", "k": (0, 2), "max_edits": 2},
+            {"pass": "A'", "depth": 3, "ops": "quick", "k": (3, n), "max_edits": 1},
+            {"pass": "B", "depth": 4, "ops": "core", "k": (0, n), "max_edits": 1},
         ]
     return [
-        {"pass": "A", "depth": 3, "ops": "quick", "k": (0, 1)},
-        {"pass": "A'", "depth": 3, "ops": "core", "k": (2, 2)},
+        {"pass": "A", "depth": 3, "ops": "quick", "k": (0, 1), "max_edits": 1},
+        {"pass": "A'", "depth": 3, "ops": "core", "k": (2, 2), "max_edits": 1},
     ]
 
 
@@ -830,13 +1124,14 @@ def run(ctx):
                     label = f"{ps['pass']}/{layout}/{kind}/" + ",".join(f"{k}={v}" for k, v in sw.items() if v != DEFAULTS[k])
                     if ctx.only and ctx.only not in label:
                         continue
-                    cases.append({"pass": ps["pass"], "layout": layout, "kind": kind, "sw": sw, "depth": ps["depth"], "ops": ps["ops"], "alphabet": idx})
+                    cases.append({"pass": ps["pass"], "layout": layout, "kind": kind, "sw": sw, "depth": ps["depth"], "ops": ps["ops"], "alphabet": idx, "max_edits": ps["max_edits"]})
                     n += 1
         bounds["pass_" + ps["pass"]] = {
             "depth": ps["depth"], "configurations": n,
             "switch_vectors": f"{ps['k'][0]} <= non-default switches <= {ps['k'][1]} ({len(_switch_vectors(*ps['k']))} vectors)",
             "operations": {lay: len(OPSETS[ps["ops"]](lay)) for lay in LAYOUTS},
             "operation_menu": {lay: OPSETS[ps["ops"]](lay) for lay in ("bounded", "equal")},
+            "max_design_space_edits_per_history": ps["max_edits"], "max_resets_per_history": 1,
         }
     # the most expensive configurations (database on) first would unbalance the simplest-first order of the
     # witnesses; the order is kept and the chunks are single configurations
@@ -867,10 +1162,13 @@ def replay(case, ctx):
     hist = case["history"]
     _, layout, kind, sw, alphabet = hist[0]
     spec = Spec(layout, kind, sw, [], alphabet)
-    w = World(spec.lay, kind, sw)
+    w = spec.new_world()
     msgs, outcomes = [], []
     for i, op in enumerate(hist[1:]):
-        outcomes.append(spec._apply(w, op, check=True))
+        try:
+            outcomes.append(spec._apply(w, op, check=True))
+        except Rejected as r:
+            outcomes.append(f"rejected: {r}")
         msgs += [m for _, m in spec._check(w, hist[: i + 2])]
     db = [{"x": _show(k.wrapped_array), **{n: _show(v) for n, v in vals.items()}} for k, vals in w.problem.database.items()]
     return {"history": hist, "outcomes": outcomes, "database": db, "user_calls": [list(c) for c in w.calls], "violations": msgs}
